@@ -56,6 +56,8 @@ def run(ctx):
     ctx.assumptions += ["tolerance 2^-20 for Levenberg-Marquardt, 2^-9 for migrad / Nelder-Mead / Powell (stopping error of the minimiser); p-values are not judged (scipy.stats)"]
     ctx.copy_props()
 
+    import itertools
+    uniq = itertools.count()
     cases = []
     ncase = 36 if quick else 700
     for i in range(ncase):
@@ -70,7 +72,7 @@ def run(ctx):
         cv = pe.cov_Obs(1.0, 0.01, "cvF") if rng.random() < 0.2 else None
 
         def mk_y(center):
-            lay = base if shared else obsutil.gen_layout(rng, nmin=24, nmax=40, max_ens=1, ens_names=["E%d" % rng.randint(0, 99)])
+            lay = base if shared else obsutil.gen_layout(rng, nmin=24, nmax=40, max_ens=1, ens_names=["E%dx%d" % (i, next(uniq))])
             if shared and rng.random() < 0.3:
                 lay = obsutil.derive_layout(rng, base, rng.choice(["subset_prefix", "superset", "subset_stride"]))
             o = obsutil.make_obs(pe, rng, lay, "int") * 0.05 + center
